@@ -245,6 +245,40 @@ def _shipped_task(task):
                               "replay": {"inst": inst.desc, "side": side, "pw": pw, "ids": [], "x": xs[0]}, "expected": len(xs), "observed": len(seen)})
             acc.seen((name, side, pw))
             acc.n(traces=1)
+    # entropy answers next to the order (q with one 16-bit word raised and a later one lowered, and vice versa): the message must
+    # still be side byte + encode(x*G + w*M) for an x in [0,q) - an out-of-range scalar makes two entropy blocks share a message
+    if R.kind == "int":
+        k = R.ssize
+        nun = (8 * k) // 16
+        w = R.pw_scalar(b"password")
+        Mb = rp.blind("A")
+        for i in range(0, nun - 1):
+            for j in (i + 1, nun - 1):
+                si, sj = 16 * (nun - 1 - i), 16 * (nun - 1 - j)
+                for c in (q + (1 << si) - (1 << sj), q - (1 << si) + (1 << sj)):
+                    if not (0 <= c < (1 << q.bit_length())) or si == sj:
+                        continue
+                    ent = T.Script([c.to_bytes(k, "big"), (5).to_bytes(k, "big")])
+                    s = inst.new("A", b"password", None, entropy=ent)
+                    m = T.observe(s.start)
+                    acc.n(states=1, transitions=1)
+                    if m[0] != "ok":
+                        continue
+                    raw = None
+                    try:
+                        import json as _j
+                        raw = int(_j.loads(s.serialize().decode("ascii"))["xy_scalar"], 16)
+                    except Exception:
+                        pass
+                    want = c if c < q else 5
+                    P = R.dec_strict(m[1][1:])
+                    okid = P is not None and R.add(P, R.mul(Mb, -w)) == R.mul(G, want)
+                    if not okid or (raw is not None and raw >= q):
+                        acc.violation("C04/%s/A/scalar-out-of-range-or-message-identity" % name,
+                                      {"what": "an entropy answer next to the group order yields a scalar outside [0,q) or a message that is not x*G + w*M for the scalar rejection sampling defines",
+                                       "replay": {"inst": inst.desc, "side": "A", "pw": b"password", "ids": [], "entropy": [c.to_bytes(k, "big"), (5).to_bytes(k, "big")]},
+                                       "expected": str(want), "observed": str(raw)})
+        acc.seen((name, "order-neighbours"))
     acc.sample({"inst": name, "edge_scalars": [str(x) for x in xs]})
     return acc
 
@@ -265,6 +299,13 @@ def run(tier, seed):
     core.pmerge(_first_byte_task, [(n, s) for n in ["T11", "T23", "T29", "T31", "T43", "T59", "T509", "T263"] for s in "ABS"], acc)
     core.pmerge(_entropy_tree_task, [(n, s) for n in ["T1543", "T263", "T23", "T29"] for s in ("A", "S")], acc)
     core.pmerge(_shipped_task, [(n, seed) for n in T.SHIPPED], acc)
+    # sessions built with the default entropy source: two sessions sharing a scalar would make their messages differ by (w1-w2)*M
+    from .c16 import _default_entropy_task
+    d = core.pmerge(_default_entropy_task, [(300 if tier == "quick" else 1500,)])
+    for k, v in d.viol.items():
+        for r in v["records"]:
+            acc.violation("C04/default-entropy/repeated-scalar", dict(r, what=r.get("what", "") + " - their messages differ only by (w1-w2)*M"))
+    acc.n(states=d.c.get("states", 0), transitions=d.c.get("transitions", 0))
     return acc
 
 
